@@ -128,8 +128,51 @@ def gen_case(rng, nops, kind="random"):
             d = gen_adv(rng, refresh)
             if total + d < (1 << 59):
                 total += d
-                ops.append(["adv", str(d)])
+                # 1 in 6: nothing is polled before the next op (a woken waiter oversleeps)
+                ops.append(["advx" if rng.chance(1, 6) else "adv", str(d)])
     return {"burst": str(burst), "refresh": str(refresh), "start": str(start), "ops": ops, "kind": kind}
+
+
+def gen_late_wakeup(rng):
+    """Directed family: a waiter parked inside acquire on an empty bucket (its wake-up tick `need` is computed), another
+    permit still held; the clock jumps k >= 1 refresh periods past the waiter's deadline and the held permit is dropped
+    at that later tick BEFORE the waiter is polled again (so the waiter's own advance(need) then carries an older tick);
+    then a burst of acquires. Oracle: the window bound over the grants."""
+    burst = rng.range(2, 12)
+    refresh = rng.choice([1, 10, 1000, 10 ** 9, rng.range(2, 50)])
+    h = rng.range(1, min(3, burst - 1))          # permits that stay held
+    p = rng.range(1, min(3, burst - h))          # what the waiter asks for
+    start = rng.choice([0, 0, refresh * rng.range(1, 4) + rng.below(refresh)])
+    ops = [["acq", str(burst - h), "fut"], ["acq", str(h), "fut"], ["drop", 0]]
+    nacq = 2
+    if rng.chance(1, 3):                         # the bucket was already in use for a while
+        ops += [["adv", str(refresh * rng.range(1, 3))], ["acq", "1", "fut"], ["drop", nacq]]
+        nacq += 1
+        if rng.chance(1, 2):
+            ops += [["acq", str(min(2, burst - h)), "fut"], ["drop", nacq]]
+            nacq += 1
+    waiter = nacq
+    ops.append(["acq", str(p), rng.choice(["fut", "ctx"])])
+    nacq += 1
+    k = rng.range(1, 6)
+    jump = (p + 3 + k) * refresh + rng.below(refresh)
+    if rng.chance(1, 3):                         # part of the way with normal polling, then the oversleep
+        ops.append(["adv", str(max(refresh - 1, 0))])
+        jump -= max(refresh - 1, 0)
+    late = rng.chance(5, 6)
+    ops.append(["advx" if late else "adv", str(jump)])
+    ops.append(["drop", 1])                      # the held permit, at the later tick
+    if rng.chance(1, 4):
+        ops.append(["advx" if late else "adv", str(refresh * rng.range(0, 2) + rng.below(refresh))])
+    ops.append(["drop", waiter])
+    for j in range(rng.range(burst, burst + 5)):
+        q = 1 if rng.chance(3, 4) else rng.range(1, min(3, burst))
+        ops += [["acq", str(q), "fut"], ["drop", nacq]]
+        nacq += 1
+        if rng.chance(1, 8):
+            ops.append(["adv", str(rng.below(refresh) if refresh > 1 else 0)])
+    return {"burst": str(burst), "refresh": str(refresh), "start": str(start), "ops": ops,
+            "kind": "late-wakeup" if late else "late-wakeup-control"}
 
 
 def gen_flood(rng, nacq):
@@ -153,6 +196,8 @@ def make_twin(rng, c):
     on the spot, the rest of the run must be unchanged (cancel consumes nothing)."""
     ops = c["ops"]
     j = rng.below(len(ops) + 1)
+    while j > 0 and ops[j - 1][0] == "advx":     # the inserted acquire would poll the oversleeping waiter early
+        j -= 1
     knew = sum(1 for o in ops[:j] if o[0] == "acq")
     burst = int(c["burst"])
     p = rng.choice([burst, max(burst, 1), min(burst + 1, USIZE_MAX), 1, max(1, burst // 2)])
@@ -171,7 +216,13 @@ def make_twin(rng, c):
 
 def corpus_cases():
     r = 2 * 10 ** 9
+    sec = 10 ** 9
     return [
+        # late wake-up (seed C15b): exhaust the bucket keeping one permit, park a waiter, the clock jumps 5 periods, the held
+        # permit is dropped before the waiter is polled, then a burst of acquires: at most 16 grants in the 5 s window
+        {"burst": "10", "refresh": str(sec), "start": "0", "kind": "unit",
+         "ops": [["acq", "9", "fut"], ["acq", "1", "fut"], ["drop", 0], ["acq", "1", "fut"], ["advx", str(5 * sec)], ["drop", 1], ["drop", 2]]
+                + [x for i in range(12) for x in (["acq", "1", "fut"], ["drop", 3 + i])]},
         # limiter/tests.rs immediate_permit_consumption, first part
         {"burst": "5", "refresh": str(r), "start": "0", "kind": "unit",
          "ops": [x for i in range(5) for x in (["acq", "1", "fut"], ["drop", i])] + [["acq", "3", "fut"], ["adv", str(3 * r - 1)], ["adv", "1"], ["drop", 5]]},
@@ -323,6 +374,8 @@ def coq_case(c):
             ops.append(f"OCancel {int(o[1])}%nat")
         elif o[0] == "drop":
             ops.append(f"ODrop {int(o[1])}%nat")
+        elif o[0] == "advx":
+            ops.append(f"OAdvX {coq_z(o[1])}")
         else:
             ops.append(f"OAdv {coq_z(o[1])}")
     return f"({coq_z(c['burst'])}, {coq_z(c['refresh'])}, {coq_z(c['start'])}, {coq_list(ops)})"
@@ -344,7 +397,7 @@ def acq_table(c):
     for o in c["ops"]:
         if o[0] == "acq":
             tab.append((int(o[1]), t))
-        elif o[0] == "adv":
+        elif o[0] in ("adv", "advx"):
             t += int(o[1])
     return tab
 
@@ -459,6 +512,8 @@ def build_cases(rng, tier):
             twins.append((len(cases) - 2, len(cases) - 1))
     for i in range(nfl):
         cases.append(gen_flood(rng, rng.range(3, 25)))
+    for i in range(80 if tier == "quick" else 3000):
+        cases.append(gen_late_wakeup(rng))
     return cases, twins
 
 
@@ -666,7 +721,7 @@ def run(rep):
         "mux_cases": len(mcases), "mux_traces_accepted_by_model": len(traces) - len(tmm), "mux_traces": len(traces), "mux_streams_opened": mux_opens,
         "mux_predicate_failures": len(mux_fail),
         "distinct_nontrivial": len(distinct),
-        "rule": "scripts of 4-45 (thorough: up to 140) ops over one Limiter: acquire(p) with p in {1, 0, 1..burst, burst, burst+1, usize::MAX} (1/3 cancellable through their ctx, 2/3 by dropping the future), cancel k, drop k (live targets 6/7, arbitrary 1/7), clock advances {0,1,r-1,r,r+1,k*r,sub-tick,huge}; burst in {0,1..30,2^k,usize::MAX}, refresh in {1..10 ns, ms..s, random, 10^18, 0, negative}, start offset; + flood scripts (back-to-back acquire(1), consume at once) + twin scripts (inserted acquire+cancel) + mux cases (1-3 x 1-3 streams, 1-4 app tasks per side looping open/hold/drop, rates burst 1-5 / refresh 3-1000 ns or INF, pair or raw flood peer) + rpc::Service cases (INFLIGHT 1/2/5, server burst 1-5 / refresh 3-1000 ns, client with 1-6 tasks calling back to back, raw flood peer, raw withholding peer, handler hold 0..3 refresh); non-trivial = distinct scripts in which some acquire had to wait (granted later than issued, pending at the end, or cancelled)",
+        "rule": "late wake-up family (a waiter parked on an empty bucket, the clock jumps 1-6 periods past its deadline with nothing polled (advx), a held permit is dropped at the later tick before the waiter runs, then a burst of acquires; burst 2-12, refresh 1 ns-1 s, held 1-3, wanted 1-3; 1/6 controls with normal polling); 1 in 6 clock advances of the random scripts is of the no-poll kind as well; scripts of 4-45 (thorough: up to 140) ops over one Limiter: acquire(p) with p in {1, 0, 1..burst, burst, burst+1, usize::MAX} (1/3 cancellable through their ctx, 2/3 by dropping the future), cancel k, drop k (live targets 6/7, arbitrary 1/7), clock advances {0,1,r-1,r,r+1,k*r,sub-tick,huge}; burst in {0,1..30,2^k,usize::MAX}, refresh in {1..10 ns, ms..s, random, 10^18, 0, negative}, start offset; + flood scripts (back-to-back acquire(1), consume at once) + twin scripts (inserted acquire+cancel) + mux cases (1-3 x 1-3 streams, 1-4 app tasks per side looping open/hold/drop, rates burst 1-5 / refresh 3-1000 ns or INF, pair or raw flood peer) + rpc::Service cases (INFLIGHT 1/2/5, server burst 1-5 / refresh 3-1000 ns, client with 1-6 tasks calling back to back, raw flood peer, raw withholding peer, handler hold 0..3 refresh); non-trivial = distinct scripts in which some acquire had to wait (granted later than issued, pending at the end, or cancelled)",
         "input_distribution": dict(kinds, acquires=nacq, grants=ngr, cancelled=ncancel, twin_pairs=len(twins), twin_pairs_with_cancelled_wait=twin_checked),
         "samples": [{"case": strip(cases[i]), "impl": outs[i], "model_obs": samp.get(i)} for i in sample_ids if i < len(cases)]
                    + [{"mux_case": mcases[t[3]], "side": t[4], "impl": mouts[t[3]], "model_accept_trace": tsamp.get(t[0])} for t in traces[:2]]
